@@ -46,7 +46,7 @@ ASSUMPTIONS = [
     "PQC (Dilithium/ML-DSA) and SM2 keys, NXP SRK set, dummy signatures (unsigned placeholders), template images (spl, atf, ...) are out of scope",
 ]
 FLOORS = {"exported": 0.5, "srk:oem": 0.3, "containers>=2": 0.2, "images>=2": 0.3, "encrypted": 0.06, "explicit_offset": 0.1,
-          "refused": 0.03, "problem:image_overlap": 0.008, "problem:container_overflow": 0.008, "rsa": 0.08, "ver:2": 0.05,
+          "refused": 0.03, "problem:image_overlap": 0.008, "problem:container_overflow": 0.004, "rsa": 0.08, "ver:2": 0.05,
           "certificate": 0.008, "tamper:signed": 0.25, "tamper:image": 0.25}
 
 FIX = os.path.join(VERIF_DIR, "fixtures", "c06")
@@ -849,5 +849,5 @@ def parts(ctx):
     _STATE["work"] = ctx.work
     return [
         EnumPart("db_tuples", lambda tier: len(_combos()), _combo_case, run_case),
-        HypPart("images", _cases(ctx.quick), run_case, {"quick": 400, "thorough": 20000}),
+        HypPart("images", _cases(ctx.quick), run_case, {"quick": 320, "thorough": 20000}),
     ]
